@@ -9,7 +9,8 @@ compares every `View` of the implementation with the model's as a multiset
 work id), and evaluates `Spec/C10.spec` on the implementation's views with
 respect to the recorded history.
 
-The GC goroutine is part of the history: `gc` events at `start + k·gci`, a tick
+The GC goroutine is part of the history: `gc` events at `start + k·gcInterval`
+(extracted constant; by `gc_transparent` they cannot change any view), a tick
 due at the instant of an operation first (the harness calls `synctest.Wait()`
 before every operation).  `now` of an operation is the sum of the sleeps; it is
 checked against the clock reading the harness recorded.
@@ -70,15 +71,15 @@ def viewOf (tab : Array CheckResult) (j : Json) : R (List CheckResult) := do
 
 def eligibleB (r : CheckResult) : Bool := decide (r.pes = 0) && r.eligible
 
-def mkCall (tab : Array CheckResult) (o : SOp) (now inv res : Nat) (view : Json) (label : String) : R Call := do
+def mkCall (ttl : Nat) (tab : Array CheckResult) (o : SOp) (now inv res : Nat) (view : Json) (label : String) : R Call := do
   let base : Call := { inv, res, now, apply := id, evs := [], out := none, label }
   match o.k with
   | "add" =>
     let rs ← pick tab o.rs
-    pure { base with apply := fun s => add now s rs, evs := rs.map (Ev.add now) }
+    pure { base with apply := fun s => add ttl now s rs, evs := rs.map (Ev.add now) }
   | "padd" =>
     let rs ← pick tab o.rs
-    pure { base with apply := fun s => postProcess now s rs, evs := (rs.filter eligibleB).map (Ev.add now) }
+    pure { base with apply := fun s => postProcess ttl now s rs, evs := (rs.filter eligibleB).map (Ev.add now) }
   | "rm" => pure { base with apply := fun s => remove s o.ids, evs := o.ids.map (Ev.remove now) }
   | "hook" =>
     let rs ← pick tab o.rs
@@ -142,10 +143,10 @@ def build (ttl gci start : Nat) (tab : Array CheckResult) (ops : List Op) (impl 
         let ci ← natF c "inv"
         let cr ← natF c "res"
         if ¬ (binv < ci ∧ ci < cr ∧ cr < bres) then throw s!"burst: stamps out of range"
-        calls := calls.push (← mkCall tab so now (stamp + (ci - binv)) (stamp + (cr - binv)) (fieldD c "view" .null) s!"g{th}.{ix}:{so.k}")
+        calls := calls.push (← mkCall ttl tab so now (stamp + (ci - binv)) (stamp + (cr - binv)) (fieldD c "view" .null) s!"g{th}.{ix}:{so.k}")
       stamp := stamp + (bres - binv) + 1
     else
-      calls := calls.push (← mkCall tab o.sop now stamp (stamp + 1) (fieldD j "view" .null) o.sop.k)
+      calls := calls.push (← mkCall ttl tab o.sop now stamp (stamp + 1) (fieldD j "view" .null) o.sop.k)
       stamp := stamp + 2
   pure { calls := calls.qsort (fun a b => a.inv < b.inv), hasBurst, clockDiff, onTick }
 
@@ -262,8 +263,10 @@ def tagsOf (ttl : Nat) : Store → List Ev → List String → List String
         match get s r.workID with
         | none => "add-new" :: acc
         | some v =>
-          if blk v.data < blk r then (if expired ttl t v then "replace-dead" else "replace-higher") :: acc
-          else if expired ttl t v then "reject-by-dead-entry" :: acc
+          if expired ttl t v then
+            -- the situation efb208c repaired: a dead, uncollected entry; lower-or-equal blocks used to be dropped
+            (if blk v.data < blk r then "replace-dead" else "dead-entry-overridden") :: acc
+          else if blk v.data < blk r then "replace-higher" :: acc
           else if blk v.data = blk r then "reject-equal" :: acc
           else "reject-lower" :: acc
       | .remove t id =>
@@ -287,13 +290,15 @@ def overlaps (calls : Array Call) : Bool :=
     decide (a.inv < b.inv) && decide (b.inv < a.res)
 
 def decisive : List String :=
-  ["replace-higher", "replace-dead", "reject-by-dead-entry", "reject-equal", "reject-lower", "remove-hit",
+  ["replace-higher", "replace-dead", "dead-entry-overridden", "reject-equal", "reject-lower", "remove-hit",
    "gc-collects", "view-hides-dead"]
 
 def handle (input impl : Json) : R Reply := do
   let ttl ← natF input "ttl"
-  let gci ← natF input "gci"
-  if gci = 0 then throw "gci = 0"
+  -- since efb208c the collector cannot be observed through Add/Remove/View (`gc_transparent`), so the
+  -- harness cannot measure its interval; the model's ticks use the constant extracted from the source
+  let gci := Gen.gcIntervalNs
+  if gci = 0 then throw "gcInterval = 0"
   let startDt ← natF input "startDt"
   let tab := (← listF checkResult input "res").toArray
   let ops ← listF opOf input "ops"
@@ -303,7 +308,6 @@ def handle (input impl : Json) : R Reply := do
   -- the harness measured ttl / gci on the running code; the extractor read them from the source
   let constDiff :=
     (if ttl ≠ Gen.storeTTLNs then s!"observed ttl {ttl} ns, extracted storeTTL {Gen.storeTTLNs} ns; " else "") ++
-    (if gci ≠ Gen.gcIntervalNs then s!"observed gc interval {gci} ns, extracted gcInterval {Gen.gcIntervalNs} ns; " else "") ++
     (if start ≠ startDt then s!"clock: Start expected at {startDt} ns ran at {start} ns; " else "") ++ b.clockDiff
   let mk (agree : Bool) (diff : String) (order : List Call) (specImplOverride : Option (Bool × String))
       (extra : List String) (inconclusive : Bool) : Reply :=
@@ -318,7 +322,7 @@ def handle (input impl : Json) : R Reply := do
       | none => let ok := spec ttl trace; (ok, if ok then "" else explain ttl trace)
     let tags := (tagsOf ttl [] mtrace []).eraseDups ++ extra ++
       (if b.onTick then ["op-on-gc-tick"] else []) ++
-      (if !handedStrong ttl mtrace then ["strong-reading-gap"] else [])
+      (if !handedStrict ttl mtrace then ["dominated-then-expired"] else [])
     let agree' := agree && constDiff.isEmpty
     { agree := agree', specModel := sm, specImpl := si,
       diff := if agree' then "" else ((constDiff ++ diff).take 1500).toString,
